@@ -1,8 +1,9 @@
 package main
 
 // Clause-level handling: conjunct splitting, skolemisation of universally
-// quantified goals and heuristic instantiation of universally quantified
-// assumptions ("shift" instances i0, i0+d, i0-d).
+// quantified goals, heuristic instantiation of universally quantified
+// assumptions ("shift" instances i0, i0+d, i0-d), skolemisation of
+// existential assumptions and candidate witnesses for existential goals.
 
 import (
 	"fmt"
@@ -42,6 +43,12 @@ type QFact struct {
 	body    Term // range ==> body, with varSym free
 }
 
+// Witness is a skolem constant of an assumed existential.
+type Witness struct {
+	lineIdx int
+	t       Term
+}
+
 func (e *Env) evalHyps(hyps []Expr) (Term, error) {
 	g := tTrue
 	for _, h := range hyps {
@@ -54,34 +61,38 @@ func (e *Env) evalHyps(hyps []Expr) (Term, error) {
 	return g, nil
 }
 
-// quantBody evaluates a forall with its bound variable left free and returns
-// the variable symbol and "range ==> body".
-func (e *Env) quantBody(q *EQuant) (string, Term, error) {
+// quantParts evaluates a quantifier with its bound variable left free and
+// returns the variable symbol, the range condition and the body.
+func (e *Env) quantParts(q *EQuant) (string, Term, Term, error) {
 	e.vc.nfresh++
 	v := quote(fmt.Sprintf("q:%s!%d", q.Var, e.vc.nfresh))
 	env := e.with(map[string]TV{q.Var: {Term{v, SInt}, tInt}})
 	env.bound = true
 	body, err := env.evalBool(q.Body)
 	if err != nil {
-		return "", Term{}, err
+		return "", Term{}, Term{}, err
 	}
 	rng := tTrue
 	if q.Lo != nil {
 		lo, err := e.eval(q.Lo)
 		if err != nil {
-			return "", Term{}, err
+			return "", Term{}, Term{}, err
 		}
 		hi, err := e.eval(q.Hi)
 		if err != nil {
-			return "", Term{}, err
+			return "", Term{}, Term{}, err
 		}
 		rng = and(le(lo.T, Term{v, SInt}), lt(Term{v, SInt}, hi.T))
 	}
-	return v, implies(rng, body), nil
+	return v, rng, body, nil
 }
 
-// assumeClause assumes a contract clause and records its universally
-// quantified conjuncts for later instantiation.
+func subst(t Term, sym string, by Term) Term {
+	return Term{strings.ReplaceAll(t.S, sym, by.S), t.Sort}
+}
+
+// assumeClause assumes a contract clause, records its universally quantified
+// conjuncts for later instantiation and skolemises existential conjuncts.
 func (vc *VC) assumeClause(guard Term, env *Env, cl *Clause) {
 	g, err := env.evalBool(cl.E)
 	if err != nil {
@@ -91,24 +102,49 @@ func (vc *VC) assumeClause(guard Term, env *Env, cl *Clause) {
 	vc.assume(guard, g)
 	for _, p := range clauseParts(cl.E) {
 		q, ok := p.concl.(*EQuant)
-		if !ok || !q.Forall {
+		if !ok {
 			continue
 		}
 		h, err := env.evalHyps(p.hyps)
 		if err != nil {
 			continue
 		}
-		v, body, err := env.quantBody(q)
+		v, rng, body, err := env.quantParts(q)
 		if err != nil {
 			continue
 		}
-		vc.qfacts = append(vc.qfacts, &QFact{lineIdx: len(vc.lines), guard: and(guard, h), varSym: v, body: body})
+		if q.Forall {
+			vc.qfacts = append(vc.qfacts, &QFact{lineIdx: len(vc.lines), guard: and(guard, h), varSym: v, body: implies(rng, body)})
+			continue
+		}
+		w := vc.fresh("ex:"+q.Var, SInt)
+		vc.assume(and(guard, h), subst(and(rng, body), v, w))
+		vc.witnesses = append(vc.witnesses, &Witness{lineIdx: len(vc.lines), t: w})
+		// a universally quantified conjunct under the existential becomes a
+		// fact at the witness
+		for _, ip := range clauseParts(q.Body) {
+			iq, ok := ip.concl.(*EQuant)
+			if !ok || !iq.Forall {
+				continue
+			}
+			ienv := env.with(map[string]TV{q.Var: {w, tInt}})
+			ih, err := ienv.evalHyps(ip.hyps)
+			if err != nil {
+				continue
+			}
+			iv, irng, ibody, err := ienv.quantParts(iq)
+			if err != nil {
+				continue
+			}
+			vc.qfacts = append(vc.qfacts, &QFact{lineIdx: len(vc.lines), guard: and(guard, h, ih), varSym: iv, body: implies(irng, ibody)})
+		}
 	}
 }
 
-// obligeClause emits one obligation per conjunct of a clause; universally
+// obligeClause emits one obligation per conjunct of a clause. Universally
 // quantified conjuncts are skolemised and given instances of the recorded
-// quantified assumptions.
+// quantified assumptions; existential conjuncts are offered candidate
+// witnesses (each candidate disjunct implies the original goal).
 func (vc *VC) obligeClause(kind, label, site string, guard Term, env *Env, cl *Clause) {
 	parts := clauseParts(cl.E)
 	for i, p := range parts {
@@ -125,29 +161,49 @@ func (vc *VC) obligeClause(kind, label, site string, guard Term, env *Env, cl *C
 		if len(parts) > 1 {
 			src = exprString(p.concl) + "   [conjunct of: " + cl.Src + "]"
 		}
-		if q, ok := p.concl.(*EQuant); ok && q.Forall {
-			v, body, err := env.quantBody(q)
+		q, isQ := p.concl.(*EQuant)
+		if isQ && q.Forall {
+			v, rng, body, err := env.quantParts(q)
 			if err != nil {
 				vc.specError(cl, err)
 				return
 			}
 			vc.nfresh++
-			sk := quote(fmt.Sprintf("sk:%s!%d", q.Var, vc.nfresh))
-			goal := Term{strings.ReplaceAll(body.S, v, sk), SBool}
+			sk := Term{quote(fmt.Sprintf("sk:%s!%d", q.Var, vc.nfresh)), SInt}
+			goal := subst(implies(rng, body), v, sk)
 			o := vc.oblige(kind, label, psite, and(guard, h), goal, src)
 			if o == nil {
 				continue
 			}
-			o.Extra = append(o.Extra, fmt.Sprintf("(declare-const %s Int)", sk))
-			cands := vc.instCandidates(Term{sk, SInt}, env)
-			for _, qf := range vc.qfacts {
-				if qf.lineIdx > o.PrefixLen {
-					continue
+			o.Extra = append(o.Extra, fmt.Sprintf("(declare-const %s Int)", sk.S))
+			vc.addInstances(o, vc.instCandidates([]Term{sk}, env))
+			continue
+		}
+		if isQ && !q.Forall {
+			v, rng, body, err := env.quantParts(q)
+			if err != nil {
+				vc.specError(cl, err)
+				return
+			}
+			orig, err := env.evalBool(p.concl)
+			if err != nil {
+				vc.specError(cl, err)
+				return
+			}
+			var seeds []Term
+			for _, w := range vc.witnesses {
+				if w.lineIdx <= len(vc.lines) {
+					seeds = append(seeds, w.t)
 				}
-				for _, c := range cands {
-					inst := strings.ReplaceAll(qf.body.S, qf.varSym, c.S)
-					o.Extra = append(o.Extra, "(assert "+implies(qf.guard, Term{inst, SBool}).S+")")
-				}
+			}
+			cands := vc.witnessCandidates(seeds, env)
+			disj := []Term{orig}
+			for _, c := range cands {
+				disj = append(disj, subst(and(rng, body), v, c))
+			}
+			o := vc.oblige(kind, label, psite, and(guard, h), or(disj...), src)
+			if o != nil {
+				vc.addInstances(o, cands)
 			}
 			continue
 		}
@@ -160,27 +216,25 @@ func (vc *VC) obligeClause(kind, label, site string, guard Term, env *Env, cl *C
 	}
 }
 
-// instCandidates lists the terms at which quantified assumptions are
-// instantiated for a goal skolemised at sk.
-func (vc *VC) instCandidates(sk Term, env *Env) []Term {
-	seen := map[string]bool{sk.S: true}
-	out := []Term{sk}
-	addDelta := func(d Term) {
-		if d.Sort != SInt || d.S == "0" || len(out) > 40 {
-			return
+func (vc *VC) addInstances(o *Obligation, cands []Term) {
+	for _, qf := range vc.qfacts {
+		if qf.lineIdx > o.PrefixLen {
+			continue
 		}
-		for _, c := range []Term{add(sk, d), sub(sk, d)} {
-			if !seen[c.S] {
-				seen[c.S] = true
-				out = append(out, c)
-			}
+		for _, c := range cands {
+			o.Extra = append(o.Extra, "(assert "+implies(qf.guard, subst(qf.body, qf.varSym, c)).S+")")
 		}
 	}
-	addDelta(intLit(1))
+}
+
+// intCellTerms lists the current values of the integer local variables.
+func (vc *VC) intCellTerms(env *Env) []Term {
+	var out []Term
 	states := []*State{env.cellState()}
 	if env.pre != nil {
 		states = append(states, env.pre)
 	}
+	seen := map[string]bool{}
 	for _, st := range states {
 		var keys []ssa.Value
 		for k := range st.cells {
@@ -190,11 +244,65 @@ func (vc *VC) instCandidates(sk Term, env *Env) []Term {
 		}
 		sortValues(keys)
 		for _, k := range keys {
-			addDelta(st.cells[k])
+			t := st.cells[k]
+			if t.Sort == SInt && !seen[t.S] {
+				seen[t.S] = true
+				out = append(out, t)
+			}
 		}
 	}
 	for _, d := range vc.deltas {
-		addDelta(d)
+		if !seen[d.S] {
+			seen[d.S] = true
+			out = append(out, d)
+		}
+	}
+	return out
+}
+
+// instCandidates lists the terms at which quantified assumptions are
+// instantiated for a goal skolemised at sks: sk, sk+-1, sk+-d.
+func (vc *VC) instCandidates(sks []Term, env *Env) []Term {
+	seen := map[string]bool{}
+	var out []Term
+	push := func(t Term) {
+		if !seen[t.S] && len(out) < 48 {
+			seen[t.S] = true
+			out = append(out, t)
+		}
+	}
+	deltas := append([]Term{intLit(1)}, vc.intCellTerms(env)...)
+	for _, sk := range sks {
+		push(sk)
+		for _, d := range deltas {
+			if d.S == "0" {
+				continue
+			}
+			push(add(sk, d))
+			push(sub(sk, d))
+		}
+	}
+	return out
+}
+
+// witnessCandidates lists candidate witnesses for an existential goal:
+// skolems of assumed existentials and the integer locals, each also +-1.
+func (vc *VC) witnessCandidates(seeds []Term, env *Env) []Term {
+	seen := map[string]bool{}
+	var out []Term
+	push := func(t Term) {
+		if !seen[t.S] && len(out) < 24 {
+			seen[t.S] = true
+			out = append(out, t)
+		}
+	}
+	for _, s := range seeds {
+		push(s)
+	}
+	for _, c := range vc.intCellTerms(env) {
+		push(c)
+		push(add(c, intLit(1)))
+		push(sub(c, intLit(1)))
 	}
 	return out
 }
